@@ -8,6 +8,7 @@ import (
 	"path/filepath"
 	"regexp"
 	"runtime"
+	"runtime/debug"
 	"sort"
 	"strconv"
 	"strings"
@@ -18,6 +19,7 @@ import (
 var verifDir = "/verif"
 
 func main() {
+	debug.SetGCPercent(400)
 	if len(os.Args) < 2 {
 		fmt.Fprintln(os.Stderr, "usage: symgo run|list|replay ...")
 		os.Exit(2)
@@ -203,40 +205,82 @@ func cmdRun(args []string) int {
 		deadline = t0.Add(*budget)
 	}
 
-	results := make([]*ExploreResult, len(jobs))
+	// work queue with dynamic splitting of the DFS tree
+	type work struct {
+		ji     int
+		prefix []Decision
+	}
+	var (
+		mu      sync.Mutex
+		cond    = sync.NewCond(&mu)
+		queue   []work
+		idle    int
+		nw      = *workers
+		partial = make([][]*ExploreResult, len(jobs))
+	)
+	for i := range jobs {
+		queue = append(queue, work{ji: i})
+	}
 	var wg sync.WaitGroup
-	ch := make(chan int)
-	var mu sync.Mutex
-	for w := 0; w < *workers && w < len(jobs); w++ {
+	for w := 0; w < nw; w++ {
 		wg.Add(1)
 		go func() {
 			defer wg.Done()
-			for ji := range ch {
-				j := jobs[ji]
+			for {
+				mu.Lock()
+				for len(queue) == 0 {
+					idle++
+					if idle == nw {
+						cond.Broadcast()
+						mu.Unlock()
+						return
+					}
+					cond.Wait()
+					if idle == nw {
+						mu.Unlock()
+						return
+					}
+					idle--
+				}
+				wk := queue[0]
+				queue = queue[1:]
+				mu.Unlock()
+				j := jobs[wk.ji]
 				e, err := NewExec(ldOf[j.h], *solverKind, *qtimeout)
 				if err != nil {
 					mu.Lock()
-					results[ji] = &ExploreResult{Harness: j.h.Name, Instance: j.inst, Inconclusive: []string{"solver start: " + err.Error()}}
+					partial[wk.ji] = append(partial[wk.ji], &ExploreResult{Harness: j.h.Name, Instance: j.inst, Inconclusive: []string{"solver start: " + err.Error()}})
 					mu.Unlock()
 					continue
 				}
 				e.verbose = *verbose
-				r := e.Explore(j.h, j.inst, deadline)
+				wantWork := func() bool {
+					mu.Lock()
+					defer mu.Unlock()
+					return idle > 0 && len(queue) == 0
+				}
+				donate := func(p []Decision) {
+					mu.Lock()
+					queue = append(queue, work{ji: wk.ji, prefix: p})
+					cond.Signal()
+					mu.Unlock()
+				}
+				r := e.Explore(j.h, j.inst, deadline, wk.prefix, wantWork, donate)
 				e.solver.Close()
 				mu.Lock()
-				results[ji] = r
+				partial[wk.ji] = append(partial[wk.ji], r)
 				mu.Unlock()
 				if *verbose >= 1 {
-					fmt.Fprintf(os.Stderr, "done %s#%d paths=%d %v queries=%d wall=%v\n", j.h.Name, j.inst, r.Paths, r.ByKind, r.Stats.Queries, r.Wall.Round(time.Millisecond))
+					fmt.Fprintf(os.Stderr, "done %s#%d prefix=%d paths=%d %v queries=%d wall=%v\n", j.h.Name, j.inst, len(wk.prefix), r.Paths, r.ByKind, r.Stats.Queries, r.Wall.Round(time.Millisecond))
 				}
 			}
 		}()
 	}
-	for i := range jobs {
-		ch <- i
-	}
-	close(ch)
 	wg.Wait()
+	results := make([]*ExploreResult, len(jobs))
+	for i := range jobs {
+		results[i] = mergeResults(partial[i])
+	}
 
 	return report(*prop, *tier, seed, jobs, results, lds, t0, loadT, *noEvidence, *noReplay, *repo, *solverKind)
 }
@@ -520,4 +564,57 @@ func writeReplay(path, prop string, v *Violation) {
 	rf := replayFile{Property: prop, Harness: parts[0], Instance: v.Instance, Label: v.Label, Kind: v.Kind, Key: v.Key, Msg: v.Msg, Nondet: v.Nondets, Trail: v.Trail}
 	b, _ := json.MarshalIndent(rf, "", " ")
 	os.WriteFile(path, b, 0o644)
+}
+
+func mergeResults(rs []*ExploreResult) *ExploreResult {
+	if len(rs) == 0 {
+		return &ExploreResult{Inconclusive: []string{"no result"}}
+	}
+	m := &ExploreResult{Harness: rs[0].Harness, Instance: rs[0].Instance, ByKind: map[string]int{}, Covered: map[string]int{}, Funcs: map[string]int{}}
+	in, cu := map[string]bool{}, map[string]bool{}
+	for _, r := range rs {
+		m.Paths += r.Paths
+		for k, v := range r.ByKind {
+			m.ByKind[k] += v
+		}
+		for k, v := range r.Covered {
+			m.Covered[k] += v
+		}
+		for k, v := range r.Funcs {
+			m.Funcs[k] = v
+		}
+		m.Violations = append(m.Violations, r.Violations...)
+		m.Inconclusive = append(m.Inconclusive, r.Inconclusive...)
+		m.Instrs += r.Instrs
+		m.Blocks += r.Blocks
+		m.Stats.Queries += r.Stats.Queries
+		m.Stats.Sat += r.Stats.Sat
+		m.Stats.Unsat += r.Stats.Unsat
+		m.Stats.Unknown += r.Stats.Unknown
+		m.Stats.Time += r.Stats.Time
+		if r.Wall > m.Wall {
+			m.Wall = r.Wall
+		}
+		if len(m.Samples) < 4 {
+			m.Samples = append(m.Samples, r.Samples...)
+		}
+		for _, k := range r.Intrinsics {
+			in[k] = true
+		}
+		for _, k := range r.Cuts {
+			cu[k] = true
+		}
+		if r.MaxTrail > m.MaxTrail {
+			m.MaxTrail = r.MaxTrail
+		}
+	}
+	for k := range in {
+		m.Intrinsics = append(m.Intrinsics, k)
+	}
+	for k := range cu {
+		m.Cuts = append(m.Cuts, k)
+	}
+	sort.Strings(m.Intrinsics)
+	sort.Strings(m.Cuts)
+	return m
 }
